@@ -1,6 +1,6 @@
 \* exhaustive (thorough): 3 temperatures, all 15 kind pairs x 12 constructions, every behaviour of up to 3 calls
 CONSTANTS NT = 3  NV = 1  MaxLevel = 3
-  KindChoices <- McKindsAll  TempChoices <- McTempsHalf3  LinkPairs <- McLinks  RampSteps <- McRamp
+  KindChoices <- McKindsAll  TempChoices <- McTempsHalf3  LinkPairs <- McLinks  RampSteps <- McRamp  AuxChoices <- McAuxByKind
 INIT Init
 NEXT NextB
 CONSTRAINT Bound
@@ -8,6 +8,7 @@ VIEW View
 INVARIANT TypeOK
 INVARIANT LinksAcyclic
 INVARIANT PathIndependent
+INVARIANT AuxScaleWithDensities
 INVARIANT DensityShrinksBySquare
 INVARIANT DimensionLaw
 INVARIANT AreaGrowsBySquare
